@@ -22,8 +22,11 @@ def run(model, tier):
         "branch must be the convex combination  Xc + (Xp - Xc) * w  with the SAME weight w = 2h/dx for all four, Xp "
         "the partial-cell fan average computed at the top of the branch and Xc the constant-state value, i.e. the "
         "expression the `else:` (constant state) branch assigns to the same quantity. With 0 <= w <= 1 this form is "
-        "between Xc and Xp for every input; any other affine form extrapolates. Positivity, compressive shocks, "
-        "monotone fans and the Su-Olson ordering are numeric and not decided.")
+        "between Xc and Xp for every input; any other affine form extrapolates. Sedov (sa/rules/c17_sedov.py): every base of a "
+        "power with a parameter-dependent exponent in the similarity functions is positive on the range of v that is used -- clamped, a "
+        "positive multiple of v, or identically (vstar - v)/(vstar - v2) with v and v2 on the same side of vstar by the constructor's "
+        "choice of range -- so density and pressure are positive products and no fractional power of a negative number occurs. "
+        "Compressive shocks, monotone fans and the Su-Olson ordering are numeric and not decided.")
     res.rule_text = 'instance = one averaged quantity of the transition cell'
     res.trusted_base = ['CPython ast', 'NF engine']
     fi = model.get_func(FN)
@@ -170,4 +173,6 @@ def run(model, tier):
                             "[xp, x2], the part of the cell that the fan occupies (it is `%s`): the fan is evaluated outside "
                             "its range, so the cell value can leave the interval spanned by the two neighbouring states"
                             % (q, src_of(first[q])[:40] + ' = ...'), line=first[q].lineno, construct=src_of(first[q])))
+    from . import c17_sedov
+    c17_sedov.sedov_bases(model, res)
     return res
